@@ -348,7 +348,7 @@ def dqn_routing_case(gamma: float, seed: int) -> dict:
     loss, grads = DQN.dqn_loss_grad(online, batch, target, gamma)
     upd, _ = algo.optimizer.update(grads, opt_state, params)
     expect = eqx.apply_updates(online, upd)
-    other = DQN.dqn_loss(online, batch, target, 0.99)
+    other = DQN.dqn_loss(online, batch, target, 0.99 if gamma < 0.75 else 0.4)
     atoms = {"ReportedLossIsTheObjectiveWithTheConfiguredDiscount": _close(log["loss"], loss, 1e-5),
              "ReturnedNetworkIsTheConfiguredOptimisersStepOnThatObjective": _same_tree(new_policy, expect, grads),
              "DiscountMattersOnThisBatch": bool(abs(float(other) - float(loss)) > 1e-3)}
